@@ -46,8 +46,47 @@ pub fn find(id: &str) -> Option<PropDef> {
 /// Known-finding triggers: precise predicates over (case, clause, detail).
 pub fn trigger(name: &str) -> Option<fn(&Value, &str, &str) -> bool> {
   match name {
+    "sms_map_without_mapped_segment" => Some(trig_sms_map_without_mapped_segment),
+    "cached_under_replace" => Some(trig_cached_under_replace),
     _ => None,
   }
+}
+
+/// map() is delegated (through Cached / Boxed / ReplaceSource without
+/// replacements) to a SourceMapSource leaf without inner map, which returns
+/// the map it was given even though no segment of it maps a character of the
+/// text.
+fn trig_sms_map_without_mapped_segment(case: &Value, clause: &str, _d: &str) -> bool {
+  if clause != "map_some_but_no_mapped_chunk" {
+    return false;
+  }
+  let spec = spec_of(case);
+  matches!(
+    spec.map_delegate(),
+    crate::spec::Spec::SourceMap { inner: None, .. }
+  )
+}
+
+/// The tree has a CachedSource beneath a ReplaceSource with replacements and
+/// the same tree without those CachedSource nodes passes the clause: the
+/// replay path of the cache delivers coarser chunks than the first stream,
+/// and ReplaceSource's column advance depends on chunk boundaries.
+fn trig_cached_under_replace(case: &Value, clause: &str, _d: &str) -> bool {
+  let spec = spec_of(case);
+  if !spec.has_cached_under_replace() {
+    return false;
+  }
+  let Some(prop) = case
+    .get("property")
+    .and_then(|p| p.as_str())
+    .and_then(find)
+  else {
+    return false;
+  };
+  let mut c = case.clone();
+  c["spec"] = spec.without_cached_under_replace().to_json();
+  let obs = crate::worker::eval(&prop, &c);
+  !obs.has_clause(clause) && obs.inconclusive.is_empty()
 }
 
 pub fn spec_of(case: &Value) -> crate::spec::Spec {
